@@ -168,6 +168,8 @@ def gen_program(rng, profile, index=None):
             t2 += _w(rng, gaps)
             by.append({'at': t2, 'elem': 1000 + j})
         prog['bystander'] = {'T': rng.choice([0.125, 1.0]), 'ops': by}
+        if rng.random() < 0.4:
+            prog['bystander']['same_opts'] = True    # same timeout; in the options form: one decorator object, two functions
     if base in ('c03', 'c08') and not prog['foreign'] and rng.random() < 0.25:
         # the creating thread keeps the loop as its current loop but lets loop_in_thread() run it: it then submits as an
         # ordinary thread.  No waits in this configuration; the run ends after one long sleep.
@@ -434,11 +436,16 @@ class BufferWorld:
         if p['form'] == 'direct':
             self.buf = aa.buffer_until_timeout(f, timeout=self.T)
         elif p['form'] == 'deco':
-            self.buf = aa.buffer_until_timeout(timeout=self.T)(f)
+            deco = aa.buffer_until_timeout(timeout=self.T)
+            self.buf = deco(f)
         else:
             self.buf = aa.buffer_until_timeout(f)          # default timeout == 1
         if p.get('bystander'):
-            self.buf2 = aa.buffer_until_timeout(self.func2, timeout=p['bystander']['T'])
+            if p['bystander'].get('same_opts') and p['form'] in ('direct', 'deco'):
+                # same option value; in the options form the *same decorator object* wraps this second function
+                self.buf2 = deco(self.func2) if p['form'] == 'deco' else aa.buffer_until_timeout(self.func2, timeout=self.T)
+            else:
+                self.buf2 = aa.buffer_until_timeout(self.func2, timeout=p['bystander']['T'])
             for o in p['bystander']['ops']:
                 self.loop.call_at(o['at'], self.by_submit, o)
 
@@ -825,5 +832,6 @@ def execute(prog, sspec, props=('C03',), keep_log=False):
         'log': sch.log_list if keep_log else None,
         'outcomes': [(I.i, sorted(I.args), I.t0, I.outcome) for I in w.invs],
         'trace': {'invocations': [[I.i, sorted(I.args), I.t0, I.t1, I.outcome] for I in w.invs],
-                  'waits': [[W.wid, W.t0, W.t1] for W in w.waits], 'end': w.end},
+                  'waits': [[W.wid, W.t0, W.t1] for W in w.waits], 'end': w.end,
+                  'bystander': [[t, sorted(a)] for t, a in w.by_calls]},
     }
